@@ -61,7 +61,7 @@ def _w():
     add("cond-clause", "T", lambda e, r: [S("cond"), [[S("="), 1, 2], 5], [S(":else"), e]])
     add("cond-first", "T", lambda e, r: [S("cond"), [S("true"), 0, e]])
     add("or-last", "T", lambda e, r: [S("or"), [], e])
-    add("and-last", "T", lambda e, r: [S("and"), S("true"), e])
+    add("and-last", "N", lambda e, r: [S("and"), S("true"), e])     # `and` never returns a terminal expression
     add("flet-body", "T", lambda e, r: [S("flet"), [[S("h"), [S("a")], S("a")]], e])
     add("labels-body", "T", lambda e, r: [S("labels"), [[S("h"), [S("a")], S("a")]], e])
     add("progn-nonlast", "N", lambda e, r: [S("progn"), e, 0])
@@ -75,8 +75,11 @@ def _w():
     add("handler-bind", "B", lambda e, r: [S("handler-bind"), [[S("my-cond"), [S("lambda"), [S("c"), S("&rest"), S("a")], [S("probe"), Q(S("handled")), S("c")], Q(S("h"))]]], e])
     add("handler-rethrow", "B", lambda e, r: [S("handler-bind"), [[S("condition"), [S("lambda"), [S("c"), S("&rest"), S("a")], [S("probe"), Q(S("seen")), S("c")], [S("rethrow")]]]], e])
     add("ignore-errors", "B", lambda e, r: [S("ignore-errors"), e])
-    add("macro", "B", lambda e, r: [S("m-id"), e])
-    add("macro2", "B", lambda e, r: [S("m-twice"), e])
+    # a macro call is replaced in place by its expansion: the call written in the argument ends up
+    # wherever the expansion puts it, after the macro's own (blocked) frame is gone - class X: only
+    # transparency is required of it, no height law
+    add("macro", "X", lambda e, r: [S("m-id"), e])
+    add("macro2", "X", lambda e, r: [S("m-twice"), e])
     return W
 
 
@@ -88,13 +91,35 @@ PRELUDE = [
     [S("defmacro"), S("m-twice"), [S("x")], [S("quasiquote"), [S("m-id"), [S("m-id"), [S("unquote"), S("x")]]]]],
 ]
 
-# wrappers that need the fuller evaluator (funcall/apply/dotimes/thread) - "wide" only
+def _iscall(e):
+    return isinstance(e, list) and len(e) >= 2 and isinstance(e[0], tuple) and e[0][0] == "s" and (e[0][1] in ("f0", "f1", "f2", "loop", "loop2"))
+
+
+def _funcall(e, r):
+    return [S("funcall"), Q(e[0])] + e[1:] if _iscall(e) else [S("funcall"), [S("lambda"), [], e]]
+
+
+def _apply(e, r):
+    return [S("apply"), Q(e[0])] + e[1:-1] + [[S("list"), e[-1]]] if _iscall(e) else [S("apply"), [S("lambda"), [S("&rest"), S("ignored")], e], Q([1, 2])]
+
+
+def _tfirst(e, r):
+    return [S("thread-first"), e[1], [e[0]] + e[2:]] if _iscall(e) else [S("thread-first"), 1, [S("identity")], [[S("lambda"), [S("ignored")], e]]]
+
+
+def _tlast(e, r):
+    return [S("thread-last"), e[-1], e[:-1]] if _iscall(e) else [S("thread-last"), 1, [[S("lambda"), [S("ignored")], e]]]
+
+
+# terminal wrappers through builtins / loops (funcall, apply, dotimes result form, thread-*)
 WIDE_T = [
-    ("funcall", "T", lambda e, r: e if not (isinstance(e, list) and e and isinstance(e[0], tuple) and e[0][0] == "s" and e[0][1].startswith("f") and len(e[0][1]) == 2) else [S("funcall"), Q(e[0])] + e[1:]),
-    ("apply", "T", lambda e, r: e if not (isinstance(e, list) and e and isinstance(e[0], tuple) and e[0][0] == "s" and e[0][1].startswith("f") and len(e[0][1]) == 2) else [S("apply"), Q(e[0])] + e[1:-1] + [[S("list"), e[-1]]]),
+    ("funcall", "T", _funcall),
+    ("apply", "T", _apply),
     ("dotimes-result", "T", lambda e, r: [S("dotimes"), [S("i"), 2, e], [S("probe"), Q(S("turn")), S("i")]]),
-    ("thread-first", "T", lambda e, r: [S("thread-first"), 1, [S("identity")], [S("progn"), e]] if False else [S("progn"), e]),
+    ("thread-first", "T", _tfirst),
+    ("thread-last", "T", _tlast),
 ]
+WT_ALL = WT + WIDE_T
 
 
 def shape_program(rnd, nf=3, wide=True, raise_p=0.12, depth=3, maxn=5):
@@ -140,6 +165,29 @@ def loop_program(rnd, chain, n, mutual=False):
     if mutual:
         forms.append([S("defun"), S("loop2"), [S("n"), S("acc")], [S("loop"), S("n"), S("acc")]])
     forms.append([S("probe"), Q(S("result")), [S("loop"), n, 0]])
+    return forms
+
+
+def chain_class(ch):
+    cs = [w[1] for w in ch]
+    return "B" if "B" in cs else ("N" if "N" in cs else ("X" if "X" in cs else "T"))
+
+
+def boundary_loop(kind, n):
+    """Loops whose recursive call is made *through* a blocking boundary, driven by a global
+    counter: inside a macro body during expansion, inside load-string, inside handler-bind /
+    ignore-errors.  These must never be collapsed."""
+    call = {"macro-body": [S("mm")],
+            "load-string": [S("load-string"), STR("(g)")],
+            "handler-bind": [S("handler-bind"), [[S("condition"), [S("lambda"), [S("c"), S("&rest"), S("a")], S("c")]]], [S("g")]],
+            "ignore-errors": [S("ignore-errors"), [S("g")]]}[kind]
+    forms = [[S("set"), Q(S("cnt")), n],
+             [S("defmacro"), S("mm"), [], [S("g")]],
+             [S("defun"), S("g"), [],
+              [S("if"), [S("<="), S("cnt"), 0],
+               [S("progn"), [S("probe"), Q(S("bottom"))], 0],
+               [S("progn"), [S("set!"), S("cnt"), [S("-"), S("cnt"), 1]], call]]],
+             [S("probe"), Q(S("result")), [S("g")]]]
     return forms
 
 
